@@ -91,7 +91,13 @@ def c03(tier, seed):
             ('USYM', 2, dict(ncfg=30 if tier == 'quick' else None, k1_ops=['remove_dir', 'remove_dir_all', 'remove_file', 'create_dir_all', 'write'], k2=3 if tier == 'quick' else 30, removal_first=True, then_parent=True))]
     if tier != 'quick':
         plan += [('UO3', 3, dict(ncfg=300, k1_ops=overlay.HIST_OPS, k2=10, removal_first=True)), ('UO4', 2, dict(ncfg=300, k1_ops=overlay.HIST_OPS, k2=10, removal_first=True))]
-    return run_onestep('C03', tier, seed, ['mem', 'alt:/a'], ['mem', 'alt:/a', 'alt:/a/b', 'altalt'], ALL_OPS, overlay_plan=plan)
+    from . import transfer
+    # transfers belong to "every call": also with a source of the wrong type (copy_file/move_file of a directory, ...)
+    tc = transfer.transfer_cases(['same_mem', 'same_alt'] if tier == 'quick' else ['same_mem', 'same_alt', 'same_ovl', 'same_altalt', 'two_mem'], ['C03'], tier, seed)
+    if tier == 'quick':
+        tc = tc[::2]
+    return run_onestep('C03', tier, seed, ['mem', 'alt:/a'], ['mem', 'alt:/a', 'alt:/a/b', 'altalt'], ALL_OPS, overlay_plan=plan,
+                       more=[(transfer.run_transfer_case, tc, 'copy/move transfers (right and wrong source types) followed by the well-formedness check')])
 
 
 @prop('C13')
@@ -223,6 +229,7 @@ OVL_ASSUMPTIONS = COMMON_ASSUMPTIONS[:4] + [
     'initial layers are type-compatible (a path present in several layers has the same type in each); type conflicts between layers are outside the bound',
     'overlay-reserved names (.whiteout, *_wo inside it) are not used as user names except the *_wo sibling names of universe UOW',
     'universe USYM: the three entry names are solver variables (lengths 1, 3, 2 over the bytes of {a,b,.,_,U+00E9}, valid UTF-8, siblings distinct); the alphabet cannot spell a reserved name',
+    'layer kinds: each layer the root of its own MemoryFS; all layers sub-directories of one MemoryFS (memsub) or of one PhysicalFS on the OS model (physshared, C08)',
     'lower layers are compared through their own observers (exists/metadata/read_dir/read); access times are not compared',
 ]
 
@@ -254,11 +261,13 @@ def run_overlay(pid, tier, seed, plan, extra_props=(), more=()):
 def c09(tier, seed):
     from . import overlay
     if tier == 'quick':
-        plan = [('UO3', 2, dict(k1_ops=overlay.HIST_OPS + overlay.OBS_OPS, k2=12)),
-                ('UO3', 3, dict(ncfg=40, k1_ops=overlay.HIST_OPS)),
+        plan = [('UO3', 2, dict(k1_ops=overlay.HIST_OPS + overlay.OBS_OPS, k2=12, recreate=1)),
+                ('UO3', 3, dict(ncfg=60, k1_ops=overlay.HIST_OPS + ['read_dir'], recreate=1)),
+                ('UO3', 2, dict(ncfg=40, k1_ops=overlay.HIST_OPS + ['read_dir'], recreate=1, layer_kind='memsub')),
                 ('USYM', 2, dict(ncfg=30, k1_ops=overlay.HIST_OPS + overlay.OBS_OPS, k2=4))]
     else:
-        plan = [('UO3', 2, dict(k1_ops=overlay.HIST_OPS + overlay.OBS_OPS, k2=150, k3=40)),
+        plan = [('UO3', 2, dict(k1_ops=overlay.HIST_OPS + overlay.OBS_OPS, k2=150, k3=40, recreate=2)),
+                ('UO3', 2, dict(k1_ops=overlay.HIST_OPS + overlay.OBS_OPS, k2=20, recreate=1, layer_kind='memsub')),
                 ('USYM', 2, dict(k1_ops=overlay.HIST_OPS + overlay.OBS_OPS, k2=40, k3=10)),
                 ('USYM', 3, dict(ncfg=200, k1_ops=overlay.HIST_OPS, k2=5)),
                 ('UO3', 3, dict(ncfg=400, k1_ops=overlay.HIST_OPS + overlay.OBS_OPS, k2=20)),
@@ -276,9 +285,12 @@ def c10(tier, seed):
         plan = [('UO3', 2, dict(k1_ops=rm, k2=10, k3=4, removal_first=True, recreate=1)),
                 ('UOW', 2, dict(ncfg=60, k1_ops=rm, k2=8, removal_first=True)),
                 ('UO3', 3, dict(ncfg=40, k1_ops=rm, k2=6, removal_first=True, recreate=1)),
-                ('USYM', 2, dict(ncfg=30, k1_ops=rm, k2=6, removal_first=True, recreate=1))]
+                ('USYM', 2, dict(ncfg=30, k1_ops=rm, k2=6, removal_first=True, recreate=1)),
+                ('UO4', 2, dict(ncfg=40, k1_ops=['remove_dir_all', 'remove_dir'], k2=2, removal_first=True)),
+                ('UO3', 2, dict(ncfg=40, k1_ops=rm, k2=4, removal_first=True, recreate=1, layer_kind='memsub'))]
     else:
         plan = [('UO3', 2, dict(k1_ops=rm, k2=105, k3=60, removal_first=True, recreate=2)),
+                ('UO3', 2, dict(k1_ops=rm, k2=20, removal_first=True, recreate=1, layer_kind='memsub')),
                 ('USYM', 2, dict(k1_ops=rm, k2=40, k3=10, removal_first=True, recreate=2)),
                 ('USYM', 3, dict(ncfg=200, k1_ops=rm, k2=6, removal_first=True, recreate=1)),
                 ('UOW', 2, dict(ncfg=500, k1_ops=rm, k2=40, k3=10, removal_first=True)),
@@ -393,8 +405,13 @@ def c05(tier, seed):
             ('USYM', 2, dict(ncfg=20 if tier == 'quick' else None, k1_ops=overlay.HIST_OPS, k2=2 if tier == 'quick' else 20))]
     if tier != 'quick':
         plan.append(('UO3', 3, dict(ncfg=200, k1_ops=overlay.HIST_OPS, k2=5)))
+    from . import transfer
+    tc = transfer.transfer_cases(['same_mem'] if tier == 'quick' else ['same_mem', 'same_alt', 'same_ovl'], ['C05'], tier, seed)
+    if tier == 'quick':
+        tc = tc[::2]
     return run_onestep('C05', tier, seed, ['mem', 'alt:/a'], ['mem', 'alt:/a', 'alt:/a/b', 'altalt'], onestep.PRIMS + onestep.COMPOSITES + ['exists'],
-                       perm=True, overlay_plan=plan)
+                       perm=True, overlay_plan=plan,
+                       more=[(transfer.run_transfer_case, tc, 'observer consistency after copy/move transfers')])
 
 
 @prop('C12')
